@@ -79,6 +79,6 @@ TB = ("Trusted: Coq 8.16.1 kernel (vm_compute, no native_compute), no axioms (Pr
 
 MANIFEST = dict(
     text="Theorems (Coq 8.16, closed under the global context) about an executable Gallina model of LayeredFilesystem on a tree model of the layer directories, for EVERY codec (compress/decompress are section parameters): read returns the decoded file of the highest layer that holds a FILE at the addressed location and FileNotFound iff none does (a directory of that name higher up does not shadow); whatever write/create_dir return, configuration, language and all layers but the last are unchanged; a successful write leaves File(encoded payload) at the location, directories at its ancestors and everything else of the top layer as it was; a failed write changes nothing on well-formed layers unless the path ends in '/' (then exactly the missing ancestor directories stay created - the code's real behaviour, stated instead of DESIGN's S'=S); WHEN the calls succeed (C12_write_ok_iff, C12_write_result, C12_create_dir_ok_iff, C12_create_dir_result; no well-formedness needed): write returns Ok iff the path localizes (when asked to) to a modelled path without trailing '/', the codec accepts the payload (never refused below 16 MiB by the real codec models: C12_write_ok_iff_real; refused from the format's size limit on: C12_write_too_large_fails), and in the TOP layer no proper ancestor of the target is a file and the target is not a directory (lower layers play no role) - otherwise exactly the localisation/path error, the codec's error or WriteError; create_dir returns Ok iff neither the target nor an ancestor is a file in the top layer, otherwise IOError; create_dir, whatever it returns, leaves every read and every file_exists answer unchanged and keeps exists / directory_exists true where they were (C12_create_dir_frame); along every history of the byte-level operations (fs_run: read/write/create_dir/queries/listings, any codec) that contains no write addressed to the location of p - create_dir calls unrestricted - read p and file_exists p answer as before, and read-after-write survives such a history (C12_run_keeps_read, C12_read_after_write_history); read-after-write for every codec satisfying the round-trip law, AND for the real codec models (C12_read_after_write_real / _by_game: LZ10 for FE9/FE10 with suffixes .cms/.cmp, LZ13 for FE13-FE15 with suffix .lz; EVERY byte payload of every successful write - no size bound: after the repair of F21 the compressors reject what their size field cannot store, so success of the write is the size condition, and for a name without the game's suffix no codec runs; any combination of build profiles; for LZ13 payloads between 2^31 and 2^32 bytes the list model's three wrapper length bytes are not proved equal to the code's, the decoder ignores them and C09_round_trip_machine proves the same round trip on the machine-level model); a payload the configured format cannot store (2^24 bytes and more for FE9/FE10) written to a compressed name fails with the compression error and leaves the state unchanged (C12_write_too_large_fails, _fe9_fe10: finding F21); the stored file of a compressed name proved to be a valid LZ10 / wrapped LZ11 stream of the payload (C12_stored_stream_real); exists/file_exists/directory_exists/resolve are the same top-down search; the 7-game configuration table and the compressed-suffix rule equal a specification table written from the property text (finite proof); the typed helpers END TO END (C12_e2e_*; Model/FsTyped.v instantiates codec, parsers and serializers with the models of the real code): what write_archive stores is read back by read_archive as an archive related to the written one exactly as in C01_round_trip, what write_text_archive stores is read back with the same title, keys in order and messages (C06), a conforming pack / arc / CTPK / BCH / CGFX / TPL image stored with write is returned by read_fe9_arc / read_arc / read_*_textures as C15 / C16 / C20 say (texture maps keyed by name, the last texture of a name wins), for every game, path, localisation flag and pair of build profiles, images shorter than 16 MiB, the archive carrying the game's endianness / text format (necessary: C12_e2e_archive_wrong_endian); the typed writers touch the top layer only; well-formedness of layers is an invariant of all histories. The model is tied to /repo on every run by executing the extracted model and the real library on the same histories (<= 25 calls quick, <= 120 thorough, 1-4 real temp-directory layers, all 5 games x 8 languages, localized or not, typed helpers included) and comparing every return value and a full walk of every layer directory after every call, plus the configuration table exhaustively; an independent Python oracle (top-most file wins, lower layers untouched, stored file decodes to the payload with its own LZ10/LZ11 decoders, localisation from C14's specification table) is evaluated on the implementation's outputs.",
-    note=TB + "Modelled, not verified (A-fs): std::fs (create_dir_all, write, read, metadata), Path::join, normpath::normalize on relative paths of plain components in existing symlink-free layer directories; symlinks, permissions, non-UTF-8 names, concurrent modification and I/O errors other than file/directory conflicts are outside the model - among them the name limits of a real file system: a component containing NUL or longer than NAME_MAX (255 bytes), a path longer than PATH_MAX, is accepted by the model (and by wf_layer) but refused by the OS, so the success criteria hold for names within those limits only. Seven of the counted theorems (C12_stored_form, C12_typed_helpers, C12_e2e_helpers_unfold, C12_e2e_same_codec, C12_e2e_same_archive_is_C01, C12_e2e_top_layer_effect_is, C12_e2e_writes_elsewhere_is) are unfolding lemmas that display definitions (marked as such in Properties/C12.v); they establish nothing about the code. The codec is a parameter: the correspondence feeds the real compressor's output to the model as data, so the LZ streams themselves are checked here only by the oracle's decoders (their proofs are C08-C11). Typed helpers: stream typed-e2e runs the extracted model with the REAL codec / parser / serializer models (nothing fed in as data) and compares every typed result as a value and every stored file byte for byte; its oracle uses independent Python reference readers.",
+    note=TB + "Modelled, not verified (A-fs): std::fs (create_dir_all, write, read, metadata), Path::join, normpath::normalize on relative paths of plain components in existing symlink-free layer directories; symlinks, permissions, non-UTF-8 names, concurrent modification and I/O errors other than file/directory conflicts are outside the model - among them the name limits of a real file system: a component containing NUL or longer than NAME_MAX (255 bytes), a path longer than PATH_MAX, is accepted by the model (and by wf_layer) but refused by the OS, so the success criteria hold for names within those limits only. Seven of the counted theorems (C12_stored_form, C12_typed_helpers, C12_e2e_helpers_unfold, C12_e2e_same_codec, C12_e2e_same_archive_is_C01, C12_e2e_top_layer_effect_is, C12_e2e_writes_elsewhere_is) are unfolding lemmas that display definitions (marked as such in Properties/C12.v); they establish nothing about the code. The codec is a parameter: the correspondence feeds the real compressor's output to the model as data, so the LZ streams themselves are checked here only by the oracle's decoders (their proofs are C08-C11). Build profiles: the byte-level histories (kind fs) run on the debug build only; the release build is exercised by the typed-e2e stream (writer and reader in the same profile). Typed helpers: stream typed-e2e runs the extracted model with the REAL codec / parser / serializer models (nothing fed in as data) and compares every typed result as a value and every stored file byte for byte; its oracle uses independent Python reference readers.",
     technique='Coq proof (list/association-list induction, top-down search characterisation, invariant over histories, finite table by computation) + extracted-model differential check on real temp directories + independent oracle',
     ref='DESIGN.md section 5 (C12); notes/fs.md')
